@@ -48,7 +48,7 @@ func (kgdb *KVInterfaceGDB) AddVertex(vertices []*gdbi.Vertex) error {
 	vertices = lastVersions(vertices)
 	for _, vert := range vertices {
 		if vert.Validate() == nil {
-			if err := kgdb.unindexVertex(vert.ID); err != nil {
+			if err := kgdb.removeStoredVertex(vert.ID); err != nil {
 				return err
 			}
 		}
@@ -85,15 +85,19 @@ func lastVersions(elems []*gdbi.DataElement) []*gdbi.DataElement {
 	return out
 }
 
-// unindexVertex removes the index entries of the stored version of a vertex, so that
-// replacing it (possibly with another label) leaves no stale entries behind
-func (kgdb *KVInterfaceGDB) unindexVertex(id string) error {
+// removeStoredVertex removes the stored version of a vertex that is about to be written
+// again, record and index entries in one transaction, so that replacing it (possibly
+// with another label) leaves no stale entries behind
+func (kgdb *KVInterfaceGDB) removeStoredVertex(id string) error {
 	old := kgdb.GetVertex(id, true)
 	if old == nil {
 		return nil
 	}
 	doc := map[string]interface{}{kgdb.graph: vertexIdxStruct(old.ToVertex())}
 	return kgdb.kvg.kv.Update(func(tx kvi.KVTransaction) error {
+		if err := tx.Delete(VertexKey(kgdb.graph, id)); err != nil {
+			return err
+		}
 		return kgdb.kvg.idx.RemoveDocTx(tx, id, doc)
 	})
 }
@@ -237,7 +241,7 @@ func (kgdb *KVInterfaceGDB) BulkAdd(stream <-chan *gdbi.GraphElement) error {
 					}
 					seen["v"+elem.Vertex.ID] = struct{}{}
 					if elem.Vertex.Validate() == nil {
-						if err := kgdb.unindexVertex(elem.Vertex.ID); err != nil {
+						if err := kgdb.removeStoredVertex(elem.Vertex.ID); err != nil {
 							bulkErr = multierror.Append(bulkErr, err)
 							continue
 						}
